@@ -8,6 +8,7 @@ import (
 	"math/rand"
 	"reflect"
 	"sort"
+	"strconv"
 	"strings"
 
 	"cosmossdk.io/math"
@@ -97,7 +98,22 @@ func setLeaf(root reflect.Value, path, val string) bool {
 			return false
 		}
 	}
-	n := map[string]int64{"zero": 0, "one": 1, "huge": 1_000_000_000_000_000}[val]
+	n, named := map[string]int64{"zero": 0, "one": 1, "huge": 1_000_000_000_000_000}[val]
+	if !named { // an ordinary value: a decimal for Dec leaves, an integer otherwise
+		if v.Type() == tDec {
+			dv, err := math.LegacyNewDecFromStr(val)
+			if err != nil {
+				return false
+			}
+			v.Set(reflect.ValueOf(dv))
+			return true
+		}
+		iv, err := strconv.ParseInt(val, 10, 64)
+		if err != nil {
+			return false
+		}
+		n = iv
+	}
 	switch {
 	case v.Type() == tInt:
 		v.Set(reflect.ValueOf(math.NewInt(n)))
